@@ -119,9 +119,10 @@ theorem same_numbering {le : Flist.Str → Flist.Str → Prop} (anti : ∀ a b, 
     (hss : s.Pairwise (fun x y => le x.name y.name)) (hrs : r.Pairwise (fun x y => le x.name y.name))
     (hnd : (l.map (·.name)).Nodup) : s = r := C15.same_numbering anti l s r hs hr hss hrs hnd
 
-theorem same_list_options (o : Opts.St) :
+theorem same_list_options (o : Opts.St)
+    (ho : Opts.acc o .DeleteMode = true → Opts.acc o .Recurse = true) :
     ∃ s', Opts.parse (Opts.serverOptions (Opts.acc o)) = .ok s' ∧ C14.flistOpts s' = C14.flistOpts o :=
-  C14.flist_opts_agree o
+  C14.flist_opts_agree o ho
 
 
 /-! ## the whole session: every selected regular file, for every prior state of the destination -/
